@@ -40,7 +40,7 @@ RULE = ('Hypothesis: CamxSpec (format in uamiv[AVERAGE EMISSIONS AIRQUALITY '
         'are read in the window 1970-2069.  Non-trivial: (nspec>1 or format '
         'has >1 variable) and nz>1 and steps>1, or a day/year/century/leap '
         'roll-over inside the file, or a denormal / -0.0 payload.  Distinct '
-        'by sha1 of the case spec.')
+        'by sha1 of the case spec.' + '  Domain by construction: lateral_boundary nx, ny >= 2 (an edge needs its two corner cells), EMISSIONS nz = 1, AIRQUALITY one step, steps of whole hours (lateral_boundary 1 h), every instant incl. the last end time inside 1970-2069, species names not DATE/TFLAG/ETFLAG, a 3-variable cloud_rain file whose size is also a whole number of 5-variable steps is not generated (the format stores no variable count), old-style landuse with at most one optional field.  The record reader is exercised here for uamiv only (the other record readers are compared with the memmap readers under C13); files built from arrays for the wind writer always carry a stagger flag.')
 ASSUMPTIONS = ['vf.ref.camx_ref implements the CAMx layouts of DESIGN.md '
                'Appendix A; validated by vf.ref.selfcheck against the '
                'repository samples and the literal arrays of its tests',
@@ -442,8 +442,10 @@ known.register('C09-wind-memmap-1cell', lambda spec, f: (
     _fmt(spec, 'wind') and K.one_cell(spec) and
     spec.get('reader') == 'memmap' and
     (f.clause == 'r2l-dim' or
-     (f.clause == 'r2l-open-raises' and
-      f.where == 'NonTermination@camxfiles/wind/Memmap.py:__init__'))))
+     (f.clause == 'r2l-open-raises' and f.where in (
+         'NonTermination@camxfiles/wind/Memmap.py:__init__',
+         # form the endless scan takes once it is repaired
+         'OSError@camxfiles/wind/Memmap.py:__init__')))))
 known.register('C09-landuse-oldstyle-decode', lambda spec, f: (
     _fmt(spec, 'landuse') and not spec['newstyle'] and
     f.clause == 'r2l-open-raises' and f.where.startswith(
